@@ -211,8 +211,13 @@ def load_corpus(family):
     if os.path.isdir(d):
         for f in sorted(os.listdir(d)):
             if f.endswith(".case"):
-                lines = [l.rstrip("\n") for l in open(os.path.join(d, f)) if l.strip() and not l.startswith("#")]
-                out.append({"id": "corpus-" + f[:-5], "lines": lines, "meta": {"corpus": True}})
+                raw = [l.rstrip("\n") for l in open(os.path.join(d, f))]
+                lines = [l for l in raw if l.strip() and not l.startswith("#")]
+                meta = {"corpus": True}
+                for l in raw:
+                    if l.startswith("#meta "):
+                        meta.update(json.loads(l[6:]))
+                out.append({"id": "corpus-" + f[:-5], "lines": lines, "meta": meta})
     return out
 
 
@@ -251,6 +256,10 @@ def main():
     os.makedirs(os.path.join(VERIF, "evidence", "replay"), exist_ok=True)
     log = []
     problems = []       # things that make the property "no longer shown to hold"
+    if a.replay is None:
+        for f in os.listdir(os.path.join(VERIF, "evidence", "replay")):
+            if f.startswith(pid + "-"):
+                os.remove(os.path.join(VERIF, "evidence", "replay", f))
     # 1. regeneration
     rc, gout, gstat = step_gen()
     broken_sites = {k: v for k, v in gstat.items() if v != "ok"}
@@ -307,8 +316,13 @@ def main():
         return run_side([driver, fam.FAMILY], [(c["id"], c["lines"]) for c in cases], None, "d") if have_driver else {}
 
     if a.replay:
-        lines = [l.rstrip("\n") for l in open(a.replay) if l.strip() and not l.startswith("#")]
-        c = {"id": "replay", "lines": lines, "meta": {}}
+        raw = [l.rstrip("\n") for l in open(a.replay)]
+        lines = [l for l in raw if l.strip() and not l.startswith("#")]
+        meta = {}
+        for l in raw:
+            if l.startswith("#meta "):
+                meta = json.loads(l[6:])
+        c = {"id": "replay", "lines": lines, "meta": meta}
         io = run_impl([c]).get("replay", []); mo = run_model([c]).get("replay", [])
         print("--- implementation"); print("\n".join(io))
         print("--- model"); print("\n".join(mo))
@@ -319,7 +333,7 @@ def main():
 
     # 4. cases
     rng = random.Random(seed * 1000003 + 17)
-    cases = load_corpus(fam.FAMILY) + list(fam.gen_cases(rng, tier))
+    cases = load_corpus(pid.lower()) + list(fam.gen_cases(rng, tier))
     ids = set()
     for i, c in enumerate(cases):
         if c["id"] in ids: c["id"] = f"{c['id']}_{i}"
@@ -357,11 +371,17 @@ def main():
         def still(lines):
             cc = {"id": "shrink", "lines": lines, "meta": c.get("meta", {})}
             o = run_side([exe], [("shrink", lines)], ASAN_ENV, "s").get("shrink", [])
-            return any(x["signature"] == v["signature"] for x in fam.oracle(cc, o))
-        small = ddmin(c["lines"], still, getattr(fam, "KEEP_FIRST", 1)) if len(c["lines"]) > 2 else c["lines"]
+            try:
+                return any(x["signature"] == v["signature"] for x in fam.oracle(cc, o))
+            except Exception:
+                return False      # the candidate no longer fits the case's meta: not a reproduction
+        small = ddmin(c["lines"], still, getattr(fam, "KEEP_FIRST", 1)) \
+            if len(c["lines"]) > 2 and getattr(fam, "SHRINK", True) else c["lines"]
         rp = os.path.join(rp_dir, f"{pid}-violation.case")
         with open(rp, "w") as f:
             f.write(f"# property {pid}: {v['what']}\n# signature: {v['signature']}\n# replay: ./check.py {pid} --replay {rp}\n")
+            jm = {k: v for k, v in c.get("meta", {}).items() if isinstance(v, (int, str, bool, float, list, dict))}
+            f.write("#meta " + json.dumps(jm) + "\n")
             f.write("\n".join(small) + "\n")
         vio_lines.append(f"VIOLATION property={pid} replay={rp}")
         exit_code = 1
